@@ -197,11 +197,58 @@ def fam_fsm(rng, domains=1):
     return Built(hw, ins, {'family': 'fsm', 'domains': domains}, doms)
 
 
+_USER = {}
+def user_blocks():
+    """clocked blocks as a USER of the library writes them: defaults first and an override in a branch (the same output
+    prepared twice in one edge: the LAST prepare must win), and a Reg subclass that calls super().clock() and then
+    overrides q."""
+    if _USER: return _USER
+    py4hw = P()
+
+    class Arbiter(py4hw.Logic):
+        def __init__(self, parent, name, req0, req1, grant, owner):
+            super().__init__(parent, name)
+            self.req0 = self.addIn('req0', req0); self.req1 = self.addIn('req1', req1)
+            self.grant = self.addOut('grant', grant); self.owner = self.addOut('owner', owner)
+            self.last = 0
+        def clock(self):
+            self.grant.prepare(0)                       # defaults ...
+            self.owner.prepare(self.last)
+            if self.req0.get():                         # ... overridden in branches
+                self.grant.prepare(1); self.owner.prepare(1); self.last = 1
+            elif self.req1.get():
+                self.grant.prepare(1); self.owner.prepare(2); self.last = 2
+
+    class OverrideReg(py4hw.Reg):
+        def __init__(self, parent, name, d, q, force, forced_value):
+            super().__init__(parent, name, d, q)
+            self.force = self.addIn('force', force)
+            self.forced_value = forced_value
+        def clock(self):
+            super().clock()                             # prepares q with d ...
+            if self.force.get():
+                self.q.prepare(self.forced_value)       # ... and overrides it in the same edge
+
+    class Saturator(py4hw.Logic):
+        def __init__(self, parent, name, x, r, limit):
+            super().__init__(parent, name)
+            self.x = self.addIn('x', x); self.r = self.addOut('r', r); self.limit = limit; self.acc = 0
+        def clock(self):
+            self.acc = self.acc + self.x.get()
+            self.r.prepare(self.acc)
+            if self.acc > self.limit:
+                self.acc = self.limit
+                self.r.prepare(self.limit)
+    _USER.update(Arbiter=Arbiter, OverrideReg=OverrideReg, Saturator=Saturator)
+    return _USER
+
+
 def fam_zoo(rng, domains=1):
     """the clocked library blocks that the other families do not use, each wired between producers and consumers that are
     created in random order: stimulus generators (Sequence, wrapping and one-shot, 1-5 values), capture blocks
     (StreamCapture, StreamCaptureSigned), DualPortSynchronousMemory, UARTDeserializer, ClockSyncFSM, MsgSequencer,
-    Axi2ClkFSM, VitisKernelFSM, intel_lpm_counter.  Every output feeds a register (a consumer visited before or after the
+    Axi2ClkFSM, VitisKernelFSM, intel_lpm_counter, and user-written blocks (user_blocks(): an output prepared twice in one edge,
+    a Reg subclass overriding q after super().clock()).  Every output feeds a register (a consumer visited before or after the
     producer, depending on the schedule); inputs come from poked wires or from other blocks' outputs.  Most of these
     classes are not translated to Coq, so this family is compared with the snapshot reference and across schedules."""
     py4hw = P()
@@ -229,9 +276,11 @@ def fam_zoo(rng, domains=1):
     recipe, outs = [], []
     def produced(w):
         outs.append(w)
-    kinds = ['seq', 'seq', 'seq_once', 'seq_once', 'cap', 'caps', 'dpmem', 'des', 'sync', 'msg', 'axi', 'vitis', 'lpm']
+    U = user_blocks()
+    kinds = ['seq', 'seq', 'seq_once', 'seq_once', 'cap', 'caps', 'dpmem', 'des', 'sync', 'msg', 'axi', 'vitis', 'lpm', 'arb', 'arb', 'ovreg', 'ovreg', 'sat']
     chosen = [rng.choice(kinds) for _ in range(rng.randint(3, 6))]
     if not any(k.startswith('seq') for k in chosen): chosen.append('seq_once')
+    if not any(k in ('arb', 'ovreg', 'sat') for k in chosen): chosen.append(rng.choice(['arb', 'ovreg', 'sat']))
     for j, k in enumerate(chosen):
         n = '%s%d' % (k, j)
         if k in ('seq', 'seq_once'):
@@ -266,6 +315,16 @@ def fam_zoo(rng, domains=1):
         elif k == 'vitis':
             st, rs, lo, sent = src(1), src(1), src(1), src(1); done, idle, ready = out(1), out(1), out(1); produced(done); produced(ready)
             recipe.append(lambda n=n, a=(st, rs, done, idle, ready, lo, sent): VitisKernelFSM(pick(), n, *a))
+        elif k == 'arb':
+            r0, r1 = src(1), src(1); g, ow = out(1), out(2); produced(g); produced(ow)
+            recipe.append(lambda n=n, a=(r0, r1, g, ow): U['Arbiter'](pick(), n, *a))
+        elif k == 'ovreg':
+            wd = rng.randint(2, 8); d, f = src(wd), src(1); qq = out(wd); produced(qq)
+            fv = rng.randrange(1, 1 << wd)
+            recipe.append(lambda n=n, d=d, qq=qq, f=f, fv=fv: U['OverrideReg'](pick(), n, d, qq, f, fv))
+        elif k == 'sat':
+            wd = rng.randint(3, 8); x = src(2); r = out(wd); produced(r)
+            recipe.append(lambda n=n, x=x, r=r, lim=(1 << wd) - 2: U['Saturator'](pick(), n, x, r, lim))
         elif k == 'lpm':
             rs = src(1); qq = out(rng.randint(1, 6)); produced(qq)
             recipe.append(lambda n=n, rs=rs, qq=qq: intel_lpm_counter(pick(), n, rs, qq))
@@ -484,19 +543,28 @@ class RefSim:
     def edge(self):
         snapshot = [w.value for w in self.wires]
         updates = []
-        for l in self.leaves:
-            drv = self.domain[id(l)]
-            if drv is not None and drv.enable is not None and snapshot[self.index(drv.enable)] == 0:
-                continue
-            for w, v in zip(self.wires, snapshot):
-                w.value = v                                              # every leaf sees the pre-edge values
-                w.next = _UNSET                                          # whatever prepare() stores here is this leaf's update
-            clear_prepared()
-            with quiet():
-                l.clock()
-            for w in self.wires:
-                if w.next is not _UNSET:
-                    updates.append((w, w.next))
+        calls = []
+        for w in self.wires:                                             # the reference records prepare() itself: an instance
+            w.prepare = (lambda val, w=w: calls.append((w, val)))         # attribute shadows Wire.prepare / BidirWire.prepare
+        try:
+            for l in self.leaves:
+                drv = self.domain[id(l)]
+                if drv is not None and drv.enable is not None and snapshot[self.index(drv.enable)] == 0:
+                    continue
+                for w, v in zip(self.wires, snapshot):
+                    w.value = v                                          # every leaf sees the pre-edge values
+                    w.next = _UNSET                                      # a prepare that bypasses the instance attribute lands here
+                clear_prepared()
+                del calls[:]
+                with quiet():
+                    l.clock()
+                last = {}
+                for w, val in calls: last[id(w)] = (w, val)              # several prepares of one wire in one edge: the LAST wins
+                for w in self.wires:
+                    if w.next is not _UNSET and id(w) not in last: last[id(w)] = (w, w.next)
+                updates += list(last.values())
+        finally:
+            for w in self.wires: w.__dict__.pop('prepare', None)
         clear_prepared()
         for w, v in zip(self.wires, snapshot): w.value = v
         for w, v in updates:
